@@ -22,7 +22,10 @@ META = dict(
          "callers, the monitor and Redis going down/up for NoDeadFallback / NeverStuck and the liveness property Return "
          "(a variant with the redisAlive store hoisted above the lock must be rejected: vacuity guard); a concurrent "
          "recovery stage looks for a dead fallback on the real limiter (rounds of outage/recovery under concurrent callers "
-         "with one call per limiter failing late, exactly at the model's critical point).",
+         "with one call per limiter failing late, exactly at the model's critical point). A further family runs without the "
+         "coin override (real breaker, real coin) on a healthy Redis: drained bucket / exhausted window, then hundreds of "
+         "further requests at frozen clocks - every request must still reach Redis and be decided as the model says "
+         "(denials and OverQuota codes are not breaker failures).",
     note="Trusted: TLC, miniredis 2.23.1 (Lua via gopher-lua, TTL by FastForward) as the Redis environment, the "
          "driver's barrier (after Up it waits, bounded, for the monitor's ping, reading redisAlive/monitorStarted "
          "only as a barrier; the concurrent stage watches redisAlive to place one late failure - a direct call of the "
@@ -74,6 +77,25 @@ def mc_monitor(ctx):
     if r.violated != "NoDeadFallback":
         raise core.Infra("vacuous mechanism model: the hoisted-store variant of startMonitor is not rejected (%s)" % r.violated)
     ctx.notes["TokenMonitorImpl"] = "asis: NoDeadFallback, NeverStuck, Return hold (3 callers); hoisted-store variant rejected"
+
+
+def real_breaker(ctx, binp):
+    """Healthy Redis, the real per-address breaker with its real coin (no override): a drained bucket / an exhausted
+    window followed by several hundred further requests at frozen clocks.  Denials (Nil reply of the token script)
+    and OverQuota codes are not failures, so every request must still be decided by Redis (EVAL seen by the server)
+    and the grants must be the model's - no fallback to the in-process bucket with its fresh full burst."""
+    n = 400 if ctx.quick else 1500
+    cases = gen_token(ctx, "tdrain", configs="{<<5,10>>, <<1,1>>, <<3,2>>, <<2,5>>}", maxlen=n, maxn=1, maxstep=0, maxdown=0)
+    path, _ = ctx.write_cases("tdrain.ndjson", cases)
+    ctx.replay(PKG, OVERLAY, "^TestVerifC08Token$", path, label="tdrain", shards=4, binp=binp, env=dict(VERIF_REAL_BREAKER=1))
+    cases = gen_token(ctx, "tdrain2", configs="{<<5,10>>, <<3,2>>}", maxlen=(7 if ctx.quick else 9), maxn=2, maxstep=1, maxdown=0)
+    path, _ = ctx.write_cases("tdrain2.ndjson", cases)
+    ctx.replay(PKG, OVERLAY, "^TestVerifC08Token$", path, label="tdrain2", shards=16, binp=binp, env=dict(VERIF_REAL_BREAKER=1))
+    K = dict(Keys='{"a"}', Configs="{<<3,5>>, <<1,2>>, <<10,3>>}", MaxAdv=0, MaxBurst=1, MaxLen=n)
+    cfg = core.render_cfg(spec="GSpec", constants=K, invariants=["Emit"])
+    r = ctx.tlc("PeriodLimitGen", cfg, constants=K, name="pdrain", timeout=900, workers=2, heap="3g")
+    path, _ = ctx.write_cases("pdrain.ndjson", r.printed)
+    ctx.replay(PKG, OVERLAY, "^TestVerifC08Period$", path, label="pdrain", shards=3, binp=binp, env=dict(VERIF_REAL_BREAKER=1))
 
 
 def concurrent(ctx, binp):
@@ -152,6 +174,7 @@ def run(ctx):
         path, _ = ctx.write_cases(name + ".ndjson", cases)
         ctx.replay(PKG, OVERLAY, "^TestVerifC08Token$", path, label=name, shards=16, binp=binp)
     align(ctx, binp)
+    real_breaker(ctx, binp)
     concurrent(ctx, binp)
 
 
